@@ -322,7 +322,7 @@ class JordanCurve:
         ((2, 3), (6, 3), (2, 6))
 
         """
-        point = Point2D(*point)
+        point = copy(Point2D(*point))
         for vertex in self.vertices:
             vertex.move(point)
         self.__lenght = None
